@@ -247,6 +247,10 @@ def simplify_math_iterators(source: str) -> str:
                 continue
             yield node, _sum_range(arg)
 
+        elif node.func.id != "sum":
+            # The closed forms below are sums, they are not the len() of anything
+            continue
+
         elif core.match_template(arg, basic_collection_template):
             if any(core.walk(arg, ast.Attribute)):
                 continue
